@@ -198,6 +198,22 @@ theorem refs_inv_ops {b : View} {o : Oracle} (hb : b.IdsOK) (ops : List Op) :
     RefsInv (runOps b o Layer.empty ops).1 :=
   refsInv_runOps hb ops Layer.empty (fun i f h => by simp [Layer.empty] at h) refsInv_empty
 
+/-- **`sortAndDiffTokens` is a set difference** — in the model by construction, and, since
+`fixes/C12-diff-tokens-as-sets.patch`, in the code (which skips repeated tokens; before it counted them,
+and a token going from two occurrences to one was "removed": S2 ancestor-cell tokens do repeat, tag tokens
+of a well-formed feature do not — `tokens_nodup`).  The model carries tag tokens only; the cell-token side
+is tied by the `spatial` line of the dumps (search index vs brute force, `propfail spatial-search-complete`). -/
+theorem diff_tokens_set (before after : List Token) (t : Token) :
+    (t ∈ (diffTokens before after).1 ↔ t ∈ after ∧ t ∉ before) ∧
+    (t ∈ (diffTokens before after).2 ↔ t ∈ before ∧ t ∉ after) := by
+  simp [diffTokens, List.mem_filter]
+
+/-- re-indexing with the set difference puts the feature under exactly its current tokens, however the
+token lists repeat -/
+theorem reindex_exact {ix : List (Token × List Id)} {id : Id} {before after : List Token}
+    (H : ∀ t, id ∈ postings ix t ↔ t ∈ before) (t : Token) :
+    id ∈ postings (reindex ix id before after) t ↔ t ∈ after := reindex_self H t
+
 /-- **Tag search refines the map.** If the base's own tag search is exact, then after any state reached
 (`l.WF b`) every single-token search of the world returns exactly — and in id order — the features
 whose tags in the per-feature map produce the token. -/
